@@ -223,8 +223,11 @@ def r17_1_iso_shape(ctx: Ctx) -> RuleResult:
             if not (isinstance(call, ast.Call) and unparse(call.func).split("[")[0].endswith("_handle_padded_field") or isinstance(call, ast.Call) and "_handle_padded_field" in unparse(call.func)):
                 rr.fail(pt.parser.qual, f"letter {ch!r} is not a padded numeric field", pt.parser.mod.rel)
                 continue
-            mc = M.fold(call.args[0], pt.parser, pt.parser.mod)
-            f = unparse(call.args[1]).split(".")[-1]
+            from ..kit import positional
+
+            pargs = positional(call, M.func("_SteppedPatternBuilder._handle_padded_field", required=True))
+            mc = M.fold(pargs[0], pt.parser, pt.parser.mod)
+            f = unparse(pargs[1]).split(".")[-1]
             if mc == digits and f == fld:
                 rr.ok({"table": pt.parser.name, "letter": ch, "max_count": mc, "field": f})
             else:
